@@ -182,9 +182,9 @@ Definition panic_table : list (string * string) := [
    "query path; tenant denominations are validated at creation since the repair of F08");
   ("x/settlement/keeper/msg_server.go|msgServer.DepositToTreasury|call:NewCoins|sdk.NewCoins",
    "msg.Amount was validated by ValidateBasic (valid_coin) since the repair of F08");
-  ("x/settlement/keeper/msg_server.go|msgServer.RemoveTenantAdmin|slice|_.Admins[:_]",
+  ("x/settlement/keeper/msg_server.go|msgServer.RemoveTenantAdmin|slice|_[:_]",
    "i is the index of the loop over tenant.Admins");
-  ("x/settlement/keeper/msg_server.go|msgServer.RemoveTenantAdmin|slice|_.Admins[_+1:]",
+  ("x/settlement/keeper/msg_server.go|msgServer.RemoveTenantAdmin|slice|_[_+ 1:]",
    "i is the index of the loop over tenant.Admins");
   ("x/settlement/keeper/keeper.go|SettlementKeeper.callContract|call:CallEVM|_.evmk.CallEVM",
    "the one call to a user-chosen address: inside the recover of callContract, a panic of the EVM becomes an error (F25)");
@@ -276,7 +276,7 @@ Definition panic_table : list (string * string) := [
    "amino JSON of a decoded message; legacy sign bytes, not used in block processing");
   ("x/settlement/types/msg.go|*MsgRecord.GetSigners|panic|panic(_)",
    "the signer address was checked by ValidateBasic, which the ante handler runs before GetSigners is used");
-  ("x/settlement/types/msg.go|*MsgRecord.ValidateBasic|slice|_.TokenIdHex[2:]",
+  ("x/settlement/types/msg.go|*MsgRecord.ValidateBasic|slice|_[2:]",
    "guarded by HasPrefix(TokenIdHex, 0x) on the previous line");
   ("x/settlement/types/msg.go|*MsgRemoveTenantAdmin.GetSignBytes|call:MustMarshalJSON|_.MustMarshalJSON",
    "amino JSON of a decoded message; legacy sign bytes, not used in block processing");
